@@ -42,6 +42,21 @@ import (
 // does not depend on another test file's variable).
 var c38LogCode = common.Hex2Bytes("60606040525b7f24ec1d3ff24c2f6ff210738839dbc339cd45a5294d85c79361016243157aae7b60405180905060405180910390a15b600a8060416000396000f360606040526008565b00")
 
+// c38LoggerAddr is a contract placed in the genesis allocation of every case. Called
+// with a 32-byte big-endian count n it emits n LOG1s (empty data, topic n-1 .. 0), so
+// one transaction can carry 50..150 logs and one block several hundred: the reorg
+// code announces removed / reborn logs in chunks (flushed once more than 512 have
+// accumulated), which is only exercised by sides carrying that many logs.
+var c38LoggerAddr = common.Address{0x10, 0x99}
+
+// PUSH1 0 CALLDATALOAD; loop: JUMPDEST DUP1 ISZERO PUSH1 end JUMPI PUSH1 1 SWAP1 SUB
+// DUP1 PUSH1 0 PUSH1 0 LOG1 PUSH1 loop JUMP; end: JUMPDEST STOP   (no PUSH0: pre-Shanghai configs)
+var c38LoggerCode = common.Hex2Bytes("6000355b8015601657600190038060006000a16003565b00")
+
+// c38ChunkLimit mirrors the flush threshold documented in reorg ("> 512 accumulated");
+// it is used for the class histogram only, never by the oracle.
+const c38ChunkLimit = 512
+
 // ---------------------------------------------------------------------------
 // model tree
 
@@ -77,6 +92,7 @@ type c38Tree struct {
 	txs     map[common.Hash][]*c38Node // tx hash -> blocks containing it
 	txOrder []common.Hash              // deterministic iteration order
 	maxNum  uint64
+	heavy   bool // tree class: blocks carrying hundreds of logs
 }
 
 func (tr *c38Tree) add(n *c38Node) {
@@ -132,6 +148,11 @@ type keyPair struct {
 // c38GenTree draws the block tree.
 func c38GenTree(rt *rapid.T, env *c38Env, maxTrunk int) *c38Tree {
 	signer := types.LatestSigner(env.config)
+	// Tree class "heavy-logs": most blocks additionally carry 2..5 calls of the logger
+	// contract with 50..150 logs each (100..750 logs per block), so that the sides of a
+	// reorg regularly exceed the 512-log chunk of the removed/reborn log announcements
+	// several times over.
+	heavy := rapid.IntRange(0, 2).Draw(rt, "heavyLogs") == 0
 	fill := func(forkID int) func(int, *BlockGen) {
 		return func(i int, gen *BlockGen) {
 			// Distinguish competing blocks even when they carry no transactions.
@@ -158,9 +179,22 @@ func c38GenTree(rt *rapid.T, env *c38Env, maxTrunk int) *c38Tree {
 				}
 				gen.AddTx(tx)
 			}
+			if heavy && rapid.IntRange(0, 3).Draw(rt, "heavyBlock") > 0 {
+				ncall := rapid.IntRange(2, 5).Draw(rt, "ncall")
+				for k := 0; k < ncall; k++ {
+					kp := env.keys[rapid.IntRange(0, len(env.keys)-1).Draw(rt, "key")]
+					count := rapid.IntRange(50, 150).Draw(rt, "nlogs")
+					to := c38LoggerAddr
+					tx := types.MustSignNewTx(kp.key, signer, &types.LegacyTx{
+						Nonce: gen.TxNonce(kp.addr), To: &to, GasPrice: new(big.Int).Add(gen.BaseFee(), big.NewInt(1)),
+						Gas: 400000, Data: common.LeftPadBytes(big.NewInt(int64(count)).Bytes(), 32),
+					})
+					gen.AddTx(tx)
+				}
+			}
 		}
 	}
-	tr := &c38Tree{byHash: map[common.Hash]*c38Node{}, txs: map[common.Hash][]*c38Node{}}
+	tr := &c38Tree{byHash: map[common.Hash]*c38Node{}, txs: map[common.Hash][]*c38Node{}, heavy: heavy}
 	trunkLen := rapid.IntRange(6, maxTrunk).Draw(rt, "trunk")
 	genDb, blocks, receipts := GenerateChainWithGenesis(env.gspec, env.engine(), trunkLen, fill(0))
 	gblock := env.gspec.ToBlock()
@@ -211,6 +245,17 @@ func c38GenTree(rt *rapid.T, env *c38Env, maxTrunk int) *c38Tree {
 			prev = n
 		}
 	}
+	// generator self-check: every logger call succeeded and emitted the requested number of logs
+	for _, n := range tr.nodes {
+		for i, tx := range n.block.Transactions() {
+			if tx.To() != nil && *tx.To() == c38LoggerAddr {
+				want := new(big.Int).SetBytes(tx.Data()).Int64()
+				if r := n.receipts[i]; r.Status != types.ReceiptStatusSuccessful || int64(len(r.Logs)) != want {
+					rt.Fatalf("VERIF-HARNESS-BUG: logger call in block #%d emitted %d logs (status %d), want %d", n.num(), len(r.Logs), r.Status, want)
+				}
+			}
+		}
+	}
 	return tr
 }
 
@@ -221,6 +266,13 @@ func c38GenTree(rt *rapid.T, env *c38Env, maxTrunk int) *c38Tree {
 // channels. Feed.Send returns only after the subscriber received the value, and the
 // chain sends its events sequentially, so the order of reception is exactly the order
 // of emission across all four feeds.
+//
+// The collector behaves like an asynchronous subscriber (eth/filters' EventSystem, any
+// consumer with a buffered channel): it only *queues* what it receives — the very
+// slices handed over by the feed, no copy, no look at the elements — and the contents
+// are read in drain(), i.e. after the chain operation returned. An event's payload
+// belongs to the receiver from the moment it is sent; whatever the chain does with a
+// slice after sending it is therefore visible to the oracle.
 type c38Events struct {
 	chainCh  chan ChainEvent
 	headCh   chan ChainHeadEvent
@@ -235,8 +287,8 @@ type c38Events struct {
 type c38Event struct {
 	chain   *ChainEvent
 	head    *ChainHeadEvent
-	logs    []*types.Log
-	removed []*types.Log
+	logs    []*types.Log // as received (shares the sender's backing array), inspected in drain
+	removed []*types.Log // ditto
 }
 
 func c38Subscribe(bc *BlockChain) *c38Events {
@@ -381,6 +433,7 @@ type c38Machine struct {
 	S       map[string]struct{} // logs a subscriber currently holds as announced
 
 	dupAnnounce int // logs announced again while still announced (observation, not asserted)
+	multiChunk  bool // some action retracted / re-announced the logs of one side in >= 2 chunks
 
 	// per-action context for the event oracle
 	actKind      string
@@ -803,7 +856,37 @@ func c38LogCount(ns []*c38Node) int {
 	return c
 }
 
+// c38Chunks returns into how many announcements the logs of the given blocks (in
+// emission order) are split when a chunk is flushed as soon as more than c38ChunkLimit
+// logs have accumulated. Histogram only.
+func c38Chunks(ns []*c38Node) int {
+	chunks, acc := 0, 0
+	for _, n := range ns {
+		acc += len(n.logs)
+		if acc > c38ChunkLimit {
+			chunks++
+			acc = 0
+		}
+	}
+	if acc > 0 {
+		chunks++
+	}
+	return chunks
+}
+
 func (m *c38Machine) noteReorg(c *vs.Case, dropped, added []*c38Node) {
+	// Sides announced in several chunks. The dropped side of an action is retracted by
+	// one reorg call (the first head switch of the action); the added side is announced
+	// by one reorg call only for SetCanonical (InsertChain adopts block by block), and
+	// never includes the new head, which the caller announces itself.
+	if c38Chunks(dropped) >= 2 {
+		m.multiChunk = true
+		c.Class("reorg:removed-logs-in>=2-chunks")
+	}
+	if m.actKind == "setCanonical" && len(added) > 1 && c38Chunks(added[:len(added)-1]) >= 2 {
+		m.multiChunk = true
+		c.Class("reorg:reborn-logs-in>=2-chunks")
+	}
 	if len(dropped) > 0 && len(added) > 0 {
 		m.reorgs++
 		d := len(dropped)
@@ -853,7 +936,12 @@ func c38Run(rt *rapid.T, st *vs.S, maxTrunk, maxActions int) {
 			m.leaves = append(m.leaves, n)
 		}
 	}
-	m.logf("tree: %d blocks, %d txs, max height %d, %d leaves", len(tree.nodes), len(tree.txOrder), tree.maxNum, len(m.leaves))
+	m.logf("tree: %d blocks, %d txs, %d logs, max height %d, %d leaves", len(tree.nodes), len(tree.txOrder), c38LogCount(tree.nodes), tree.maxNum, len(m.leaves))
+	if tree.heavy {
+		c.Class("tree:heavy-logs")
+	} else {
+		c.Class("tree:light-logs")
+	}
 	m.open()
 	defer func() {
 		m.ev.close()
@@ -1061,6 +1149,9 @@ func c38Run(rt *rapid.T, st *vs.S, maxTrunk, maxActions int) {
 	if m.dupAnnounce > 0 {
 		c.Class("obs:logs-reannounced-without-removal")
 	}
+	if m.multiChunk {
+		c.Class("case:some-side-announced-in>=2-chunks")
+	}
 	c.Sample(m.deepOK, func() any {
 		return map[string]any{"variant": env.variant, "scheme": scheme, "txLookupLimit": m.limit, "trace": m.trace}
 	})
@@ -1102,6 +1193,7 @@ func c38DrawEnv(rt *rapid.T) *c38Env {
 	for _, kp := range env.keys {
 		alloc[kp.addr] = types.Account{Balance: new(big.Int).Mul(big.NewInt(1000), big.NewInt(params.Ether))}
 	}
+	alloc[c38LoggerAddr] = types.Account{Code: c38LoggerCode, Balance: big.NewInt(1)}
 	env.variant = rapid.SampledFrom([]string{"ethash", "ethash", "merged"}).Draw(rt, "variant")
 	switch env.variant {
 	case "ethash":
